@@ -1316,6 +1316,7 @@ def run(ctx):
                     p.unlink()
         slices_cases(ctx)
         inner_cases(ctx)
+        from harness.props import c13_guards; c13_guards.run(ctx)
         ctx.exhaustive = True
     finally:
         uninstall_tracer()
